@@ -208,6 +208,16 @@ func (r *envelopeReader) Read(env *envelope) *Error {
 		if connectErr, ok := asError(err); ok {
 			return connectErr
 		}
+		if errors.Is(err, io.EOF) {
+			// io.ReadFull turns only io.EOF itself into io.ErrUnexpectedEOF. An
+			// error that wraps io.EOF in the middle of a prefix is no clean end
+			// of the stream either, and mustn't look like one to callers that
+			// test for io.EOF.
+			return errorf(
+				CodeInvalidArgument,
+				"protocol error: incomplete envelope: %w (%v)", io.ErrUnexpectedEOF, err,
+			)
+		}
 		return errorf(
 			CodeInvalidArgument,
 			"protocol error: incomplete envelope: %w", err,
